@@ -3,7 +3,14 @@ replay on the real engine, contract validation of the traces, model-drift report
 
     blocks_pipeline(tier)  -> dict (cached per process and, keyed by spec + engine source hash, on disk)
     c01_blocks / c03_blocks / c06_blocks / c15_blocks (tier) -> (exit_code, coverage_dict, lines_to_print)
-    python3 -m vlib.props_blocks quick|thorough [--selftest] [--no-cache]
+    c12_blocks(tier): the same pipeline over the reclamation configurations (tiers "reclaim_quick" /
+        "reclaim_thorough"): a file becomes fully allocated, its blocks are consumed, the design raises
+        reclamation requests; the engine's `reclaim` events stay in the traces and are decided by the contract
+    python3 -m vlib.props_blocks quick|thorough|reclaim_quick|reclaim_thorough [--selftest] [--no-cache]
+
+The projection compared op by op includes the per-file reclamation counters (FileStateTracker: locked,
+checkpointed, total, fully allocated; files by ordinal) and, per operation, the multiset of reclamation
+requests (file ordinal + entries stored in the file).
 
 Only the contract (Trace_WalrusAPI via vlib.engine.validate) raises violations. Differences between
 the engine's projected state and the design's expectation are MODEL-DRIFT lines (never a violation)."""
@@ -26,8 +33,11 @@ REGISTRY = {}
 MODULE = "MC_WalrusBlocks.tla"
 DEPS = ["WalrusBlocks.tla", "WalrusAPI.tla"]
 WORKERS = 6
-PROJ_FIELDS = ("ch", "ci", "co", "tb", "to", "w", "ix", "hy", "rsp")
+PROJ_FIELDS = ("ch", "ci", "co", "tb", "to", "w", "ix", "hy", "rsp", "fs")
 INIT_PROJ = {"ch": [], "ci": 0, "co": 0, "tb": 0, "to": 0, "w": [], "ix": [], "hy": False, "rsp": 0, "n": 0}
+INIT_FS = [[0, 0, 0, False]]
+# actions that need not fire in a configuration (everything else named Op* must, -coverage 1)
+OPTIONAL_ACTIONS_STD = ("OpReclaim", "OpReopenNew")
 
 # code paths (labels of `lastOp`) every generation run must reach: the vacuity guard on the model's reach
 REQUIRED_PATHS = (
@@ -38,6 +48,10 @@ REQUIRED_PATHS = (
 REQUIRED_PATH_PATTERNS = (
     r"^br_s1_", r"^br_s2\+", r"^br_s\d\+?p", r"^br_.*_t_", r"^br_.*_short$", r"^br_.*_cut$",
 )
+# the reclamation configurations: code paths of the operation that raised a request (at least one
+# history each), besides the paths every generation run of them must reach
+RECLAIM_REQUIRED_PATHS = ("append_rotate_newfile", "batch_rotate_many", "reopen", "reopen_new", "rn_sealed_adv", "rn_sealed_peek_adv")
+RECLAIM_REQUEST_PATTERNS = (r"^rn_sealed(_peek)?_adv", r"^rn_tail_.*adv", r"^br_s", r"^br_peek_")
 
 TIERS = {
     # mc: (cfg, expect)   gen: cfg whose HIST lines are turned into behaviours
@@ -48,6 +62,27 @@ TIERS = {
                     "MC_WalrusBlocks_defect_tailinit.cfg"],
         "known": [],
         "max_behaviours": 1500, "simulate": None, "timeout": 600,
+    },
+    # C12: reclamation bookkeeping. `drop`: event kinds removed before contract validation.
+    "reclaim_quick": {
+        "flavour": "reclaim",
+        "mc": ["MC_WalrusBlocks_reclaim.cfg"],
+        "gen": "MC_WalrusBlocks_reclaim.cfg",
+        "defects": ["MC_WalrusBlocks_defect_ckptevery.cfg"],
+        "known": ["MC_WalrusBlocks_finding_alo_reclaim.cfg"],
+        "optional": {"MC_WalrusBlocks_reclaim.cfg": ("OpBatchFail",)},
+        "max_behaviours": 400, "simulate": None, "timeout": 600,
+    },
+    "reclaim_thorough": {
+        "flavour": "reclaim",
+        "mc": ["MC_WalrusBlocks_reclaim_deep.cfg", "MC_WalrusBlocks_reclaim2.cfg"],
+        "gen": "MC_WalrusBlocks_reclaim_deep.cfg",
+        "gen_extra": ["MC_WalrusBlocks_reclaim2.cfg"],
+        "defects": ["MC_WalrusBlocks_defect_ckptevery.cfg"],
+        "known": ["MC_WalrusBlocks_finding_alo_reclaim.cfg"],
+        "optional": {"MC_WalrusBlocks_reclaim_deep.cfg": ("OpBatchFail",),
+                     "MC_WalrusBlocks_reclaim2.cfg": ("OpBatchFail", "OpReopenNew")},
+        "max_behaviours": 4000, "simulate": None, "timeout": 3000,
     },
     "thorough": {
         "mc": ["MC_WalrusBlocks_thorough.cfg", "MC_WalrusBlocks_wide.cfg", "MC_WalrusBlocks_two.cfg"],
@@ -81,7 +116,7 @@ def _cache(name):
 # ------------------------------------------------------------------------------------------------
 # TLC runs of the design model
 
-def run_mc(cfg, expect="ok", simulate=None, timeout=1500, use_cache=True):
+def run_mc(cfg, expect="ok", simulate=None, timeout=1500, use_cache=True, optional=OPTIONAL_ACTIONS_STD):
     """Model-checks (or simulates) one configuration of MC_WalrusBlocks.
     expect="ok": no error; every action of Next fires (-coverage 1), else ToolError.
     expect="violation": RefinesCex must be violated and a CEX line printed (the counterexample behaviour).
@@ -131,11 +166,12 @@ def run_mc(cfg, expect="ok", simulate=None, timeout=1500, use_cache=True):
                 if not cov:
                     raise C.ToolError("%s: no -coverage output" % cfg)
                 for a, (d, t) in cov.items():
-                    if d == 0:
+                    if d == 0 and a not in optional:
                         raise C.ToolError("%s: action %s never produced a new state (vacuous)" % (cfg, a))
                 res["coverage"] = {a: list(v) for a, v in cov.items()}
             seen = set()
             paths = {}
+            req_paths = {}
             n = 0
             with gzip.open(histf, "wt") as f:
                 for m in re.finditer(r'<<"HIST", "(.*)">>', out):
@@ -145,10 +181,13 @@ def run_mc(cfg, expect="ok", simulate=None, timeout=1500, use_cache=True):
                     seen.add(s)
                     js = json.loads(s)
                     paths[js["last"]] = paths.get(js["last"], 0) + 1
+                    if js.get("rq"):
+                        req_paths[js["last"]] = req_paths.get(js["last"], 0) + 1
                     f.write(s + "\n")
                     n += 1
             res["histories"] = n
             res["paths"] = paths
+            res["request_paths"] = req_paths     # code paths of the operations that raised a reclamation request
             res["hist_file"] = histf if n else None
             if not n and os.path.exists(histf):
                 os.remove(histf)
@@ -179,6 +218,20 @@ def check_paths(paths, cfg):
         raise C.ToolError("%s: the design model never took these code paths (vacuous generation): %s" % (cfg, missing))
 
 
+def check_reclaim_paths(res, cfg):
+    """Vacuity guard of the reclamation configurations: the request step must have been taken (TLC's own
+    action count) and requests must have been raised on the read_next and on the batch-read paths."""
+    cov = res.get("coverage") or {}
+    if not cov.get("OpReclaim") or cov["OpReclaim"][0] == 0:
+        raise C.ToolError("%s: the reclamation request step OpReclaim was never taken (vacuous)" % cfg)
+    paths, rp = res.get("paths") or {}, res.get("request_paths") or {}
+    missing = [p for p in RECLAIM_REQUIRED_PATHS if p not in paths]
+    missing += ["request:" + p for p in RECLAIM_REQUEST_PATTERNS if not any(re.search(p, k) for k in rp)]
+    if missing:
+        raise C.ToolError("%s: the design model never took these code paths / never raised a reclamation request "
+                          "on these paths (vacuous generation): %s" % (cfg, missing))
+
+
 # ------------------------------------------------------------------------------------------------
 # histories -> behaviours
 
@@ -205,13 +258,19 @@ def expand_ops(ops):
     return out, owner
 
 
-def drain_ops(topics, reopen_first):
+def drain_ops(topics, reopen_first, marking=False):
+    """Tail of every replayed behaviour (beyond the model's horizon; decided by the contract only).
+    marking: drain block by block (budget 0 = one sealed range per call), so that the reader walks past
+    every block end and the engine raises the reclamation requests of the drained files."""
     tail = []
     for t in topics:   # probe: the projection before these peeks is the design's final state
         tail.append({"op": "read", "t": t, "ckpt": False, "probe": True})
     if reopen_first:
         tail.append({"op": "reopen", "i": 0, "proc": "same", "ro": True, "tailop": True})
     for t in topics:
+        if marking:
+            for _ in range(10):
+                tail.append({"op": "bread", "t": t, "budget": 0, "ckpt": True, "off": -1, "tailop": True})
         for _ in range(3):
             tail.append({"op": "bread", "t": t, "budget": -1, "ckpt": True, "off": -1, "tailop": True})
         tail.append({"op": "read", "t": t, "ckpt": True, "tailop": True})
@@ -246,13 +305,27 @@ class Histories:
         return tuple(labs)
 
 
-def select(hist, cap, seed):
+def select(hist, cap, seed, prefer_requests=False):
     """Maximal histories, at most `cap`. Stratified: the histories are grouped by (mode, code path of the
     last operation, code path of the operation before it) and the groups are served round-robin (seeded
-    shuffle inside a group), so that rare code paths get the same share as common ones."""
+    shuffle inside a group), so that rare code paths get the same share as common ones.
+    prefer_requests (reclamation configurations): every history whose last operation raised a reclamation
+    request is a behaviour of its own, also when longer histories extend it, and all of them are taken
+    first (they are few); the stratified selection fills the rest of the cap."""
     mx = hist.maximal()
-    if len(mx) <= cap:
-        return mx, len(mx)
+    first = []
+    if prefer_requests:
+        first = [s for key, s in sorted(hist.by_key.items()) if s.get("rq")]
+        keys = set((s["mode"], s["pe"], hkey(s["h"])) for s in first)
+        mx = [s for s in mx if (s["mode"], s["pe"], hkey(s["h"])) not in keys]
+        if len(first) > cap:
+            r0 = random.Random("wb-select-req/%d" % seed)
+            r0.shuffle(first)
+            first = first[:cap]
+    n_all = len(first) + len(mx)
+    cap_rest = cap - len(first)
+    if len(mx) <= cap_rest:
+        return first + mx, n_all
     r = random.Random("wb-select/%d" % seed)
     groups = {}
     for s in mx:
@@ -262,22 +335,25 @@ def select(hist, cap, seed):
     for k in keys:
         r.shuffle(groups[k])
     chosen, i = [], 0
-    while len(chosen) < cap:
+    while len(chosen) < cap_rest:
         progressed = False
         for k in keys:
             if i < len(groups[k]):
                 chosen.append(groups[k][i])
                 progressed = True
-                if len(chosen) >= cap:
+                if len(chosen) >= cap_rest:
                     break
         if not progressed:
             break
         i += 1
-    return chosen, len(mx)
+    return first + chosen, n_all
 
 
-def to_behaviours(selected, topics_of=None):
-    """Each selected history -> behaviours for fd and mmap, each with two tails (drain; reopen + drain)."""
+def to_behaviours(selected, topics_of=None, marking=False):
+    """Each selected history -> behaviours for fd and mmap, each with two tails (drain; reopen + drain).
+    marking: block-by-block drains (see drain_ops) - for StrictlyAtOnce behaviours only: in AtLeastOnce mode
+    such a drain runs straight into the recorded finding KF-ENG-ALO-RECLAIM-NOT-DURABLE (batch reads never
+    persist), the avoidance guard of the generator side."""
     behs, meta = [], {}
     for n, s in enumerate(selected):
         ops, owner = expand_ops(s["h"])
@@ -286,7 +362,7 @@ def to_behaviours(selected, topics_of=None):
             for tail in ("d", "rd"):
                 bid = "wb%d_%s_%s" % (n, be, tail)
                 b = {"id": bid, "cfg": {"backend": be, "mode": s["mode"], "pe": s["pe"], "proj": True, "topics": topics},
-                     "ops": ops + drain_ops(topics, tail == "rd")}
+                     "ops": ops + drain_ops(topics, tail == "rd", marking and s["mode"] == "strict")}
                 behs.append(b)
                 meta[bid] = {"summary": s, "owner": owner, "n_model_ops": len(ops)}
     return behs, meta
@@ -300,23 +376,37 @@ def norm_proj(p):
 
 
 def expected_before(hist, s, k, t):
-    """Design projection of topic t before model op k (0-based) of summary s."""
+    """Design projection of topic t (plus the per-file tracker state) before model op k (0-based) of summary s."""
     if k == 0:
-        return dict(INIT_PROJ)
+        return dict(INIT_PROJ, fs=INIT_FS)
     p = hist.get(s["mode"], s["pe"], s["h"][:k])
     if p is None:
         return None
-    return p["fin"].get(t)
+    return expected_final(p, t)
+
+
+def expected_final(p, t):
+    e = p["fin"].get(t)
+    if e is None:
+        return None
+    return dict(e, fs=p.get("fs"))
+
+
+def norm_requests(reqs):
+    """Multiset of reclamation requests: (file ordinal, sorted entries stored in the file)."""
+    return sorted((int(r[0]), sorted((str(x[0]), int(x[1])) for x in r[1])) for r in reqs)
 
 
 def compare_trace(hist, beh, m, events):
-    """Returns (compared, [drift records]) for one trace."""
+    """Returns (compared, [drift records]) for one trace: the projection before every call (reader, writer,
+    index, per-file reclamation counters), the counts after it and the reclamation requests it raised."""
     s, owner = m["summary"], m["owner"]
     drifts, compared = [], 0
-    evs = [e for e in events if e.get("ev") in ("append", "batch", "read", "bread", "reopen", "counts")]
+    evs = [e for e in events if e.get("ev") in ("append", "batch", "read", "bread", "reopen", "counts", "reclaim")]
     ei = 0
     ops = beh["ops"]
     nmodel = len(s["h"])
+    probes = 0
     for di, op in enumerate(ops):
         kind = op["op"]
         if kind in ("fault", "clear_fault"):
@@ -329,21 +419,43 @@ def compare_trace(hist, beh, m, events):
         ei += 1
         if op.get("tailop"):
             break
+        fields = PROJ_FIELDS
         if op.get("probe"):
-            exp = s["fin"].get(op["t"])
+            exp = expected_final(s, op["t"])
             k = nmodel
+            probes += 1
+            if probes > 1:   # an earlier probe (a peek) may itself have marked blocks: the trackers are shared
+                fields = tuple(f for f in PROJ_FIELDS if f != "fs")
         else:
             k = owner[di]
             exp = expected_before(hist, s, k, op.get("t")) if kind != "reopen" else None
         if exp is not None and "proj" in e:
             compared += 1
-            got = norm_proj(e["proj"])
-            want = {f: exp.get(f) for f in PROJ_FIELDS}
+            got = {f: e["proj"].get(f) for f in fields}
+            want = {f: exp.get(f) for f in fields}
+            if want.get("fs") is None:      # summaries of older runs
+                got.pop("fs", None)
+                want.pop("fs", None)
             if got != want:
-                diff = {f: {"engine": got[f], "design": want[f]} for f in PROJ_FIELDS if got[f] != want[f]}
+                diff = {f: {"engine": got[f], "design": want[f]} for f in got if got[f] != want[f]}
                 drifts.append({"beh": beh["id"], "op_index": k, "op": {x: y for x, y in op.items() if x != "probe"},
                                "kind": "projection", "diff": diff})
                 break
+        # reclamation requests raised by the call (a failed batch = fault + batch + clear_fault: the batch)
+        reqs = []
+        while ei < len(evs) and evs[ei]["ev"] == "reclaim":
+            reqs.append((evs[ei].get("fo", 0), evs[ei].get("stored", [])))
+            ei += 1
+        if not op.get("probe"):
+            after = hist.get(s["mode"], s["pe"], s["h"][:k + 1])
+            if after is not None and "rq" in after:
+                compared += 1
+                got = norm_requests(reqs)
+                want = norm_requests([(r["f"], r["st"]) for r in after["rq"]])
+                if got != want:
+                    drifts.append({"beh": beh["id"], "op_index": k, "op": op, "kind": "reclaim_requests",
+                                   "diff": {"requests": {"engine": got, "design": want}}})
+                    break
         # counts after the call
         if not op.get("probe") and ei < len(evs) and evs[ei]["ev"] == "counts" and kind != "reopen":
             after = hist.get(s["mode"], s["pe"], s["h"][:k + 1])
@@ -380,25 +492,47 @@ def own_c15(d):
     return d["ev"] == "counts"
 
 
+def own_c12(d):
+    """A rejected reclamation request, or a read/count/reopen that goes wrong after the engine handed a file
+    to the deleter (same attribution as the random-profile half of C12)."""
+    return d["ev"] == "reclaim" or (d.get("after_reclaim") and d["ev"] in ("read", "bread", "counts", "reopen"))
+
+
+def tierdef(tier):
+    return TIERS.get(tier, TIERS["quick"])
+
+
 def regression_behaviours(tierdef, use_cache=True):
     """Counterexamples of the defect configurations (the engine has those defects repaired: they must be
-    accepted) as behaviours. Also the vacuity guard that the model can express such defects at all."""
-    out, info = [], {}
+    accepted) as behaviours. Also the vacuity guard that the model can express such defects at all.
+    Counterexamples of the `known` configurations (recorded, open findings: TLC must find them in the model of
+    the code as it is) are returned separately: the engine is expected to show the finding on them."""
+    out, known, info = [], [], {}
     for cfg in tierdef["defects"] + tierdef["known"]:
         res = run_mc(cfg, expect="violation", timeout=900, use_cache=use_cache)
         info[cfg] = {"states": res["states"], "transitions": res["transitions"], "violated": res["violated"],
-                     "clause": res["cex"]["v"], "ops": len(res["cex"]["h"]), "wall_s": res["wall_s"]}
+                     "clause": res["cex"]["v"], "ops": len(res["cex"]["h"]), "wall_s": res["wall_s"],
+                     "mode": res["cex"]["mode"], "pe": res["cex"]["pe"], "behaviour": summarize(res["cex"])["ops"]}
+        if tierdef.get("flavour") == "reclaim" and not str(res["cex"]["v"]).startswith("C12"):
+            raise C.ToolError("%s: expected a C12 counterexample, TLC found: %s" % (cfg, res["cex"]["v"]))
         if cfg in tierdef["defects"]:
             out.append((cfg, res["cex"]))
-    return out, info
+        else:
+            known.append((cfg, res["cex"]))
+    return out, known, info
 
 
-def blocks_pipeline(tier, use_cache=True, engine_bin_env=None, max_behaviours=None, tag="wb"):
-    """MC (cached by spec hash) -> behaviours -> real engine (fd, mmap) -> contract validation -> drift."""
+def blocks_pipeline(tier, use_cache=True, engine_bin_env=None, max_behaviours=None, tag=None):
+    """MC (cached by spec hash) -> behaviours -> real engine (fd, mmap) -> contract validation -> drift.
+    tier: quick | thorough (C01/C03/C06/C15: reclaim events dropped before validation) or
+    reclaim_quick | reclaim_thorough (C12: reclaim events kept and decided by the contract)."""
     memo_key = (tier, engine_bin_env, max_behaviours)
     if use_cache and memo_key in _MEMO:
         return _MEMO[memo_key]
-    td = TIERS["thorough" if tier == "thorough" else "quick"]
+    td = tierdef(tier)
+    reclaim = td.get("flavour") == "reclaim"
+    tag = tag or ("wbr" if reclaim else "wb")
+    drop = () if reclaim else ("reclaim",)
     cfgs = td["mc"] + [td["gen"]] + td.get("gen_extra", []) + td["defects"] + td["known"] + ([td["simulate"][0]] if td["simulate"] else [])
     disk = _cache("wb_pipe_%s_%s_%s_%d_%s.json" % (tier, spec_hash(sorted(set(cfgs))), C.engine_src_hash(), C.seed(),
                                                    max_behaviours or td["max_behaviours"]))
@@ -408,18 +542,28 @@ def blocks_pipeline(tier, use_cache=True, engine_bin_env=None, max_behaviours=No
         _MEMO[memo_key] = res
         return res
     t0 = time.time()
+    opt = td.get("optional", {})
+
+    def mc(cfg):
+        return run_mc(cfg, timeout=td["timeout"], use_cache=use_cache,
+                      optional=tuple(opt[cfg]) if cfg in opt else OPTIONAL_ACTIONS_STD)
     # 1. model checking: refinement + invariants, coverage
     mcs = {}
     for cfg in td["mc"]:
-        mcs[cfg] = run_mc(cfg, timeout=td["timeout"], use_cache=use_cache)
-    gen_res = run_mc(td["gen"], timeout=td["timeout"], use_cache=use_cache)
+        mcs[cfg] = mc(cfg)
+    gen_res = mc(td["gen"])
     mcs[td["gen"]] = gen_res
-    check_paths(gen_res["paths"], td["gen"])
+    if reclaim:
+        check_reclaim_paths(gen_res, td["gen"])
+    else:
+        check_paths(gen_res["paths"], td["gen"])
     hist = Histories()
     hist.add(load_histories(gen_res))
     for cfg in td.get("gen_extra", []):
-        r = run_mc(cfg, timeout=td["timeout"], use_cache=use_cache)
+        r = mc(cfg)
         mcs[cfg] = r
+        if reclaim and not (r.get("coverage") or {}).get("OpReclaim", [0])[0]:
+            raise C.ToolError("%s: the reclamation request step OpReclaim was never taken (vacuous)" % cfg)
         hist.add(load_histories(r, td.get("gen_keep", {}).get(cfg)))
     sim_info = None
     if td["simulate"]:
@@ -427,13 +571,13 @@ def blocks_pipeline(tier, use_cache=True, engine_bin_env=None, max_behaviours=No
         sres = run_mc(scfg, simulate=(num, depth), timeout=900, use_cache=use_cache)
         hist.add(load_histories(sres))
         sim_info = {"cfg": scfg, "num": num, "depth": depth, "histories": sres.get("histories", 0), "wall_s": sres["wall_s"]}
-    regress, defect_info = regression_behaviours(td, use_cache=use_cache)
+    regress, known_cex, defect_info = regression_behaviours(td, use_cache=use_cache)
     # (the counterexamples are behaviours of the *defect* configurations: replayed for the contract only)
     # 2. behaviours
     cap = max_behaviours or td["max_behaviours"]
-    selected, n_max = select(hist, cap, C.seed())
-    behs, meta = to_behaviours(selected)
-    reg_behs = []
+    selected, n_max = select(hist, cap, C.seed(), prefer_requests=reclaim)
+    behs, meta = to_behaviours(selected, marking=reclaim)
+    reg_behs, known_behs = [], []
     for cfg, cex in regress:
         ops, _ = expand_ops(cex["h"])
         topics = sorted(cex["fin"].keys())
@@ -441,27 +585,40 @@ def blocks_pipeline(tier, use_cache=True, engine_bin_env=None, max_behaviours=No
             reg_behs.append({"id": "wbreg_%s_%s" % (cfg[len("MC_WalrusBlocks_"):-4], be),
                              "cfg": {"backend": be, "mode": cex["mode"], "pe": cex["pe"], "proj": True, "topics": topics},
                              "ops": ops + drain_ops(topics, False)})
+    for cfg, cex in known_cex:
+        ops, _ = expand_ops(cex["h"])
+        topics = sorted(cex["fin"].keys())
+        for be in ("fd", "mmap"):
+            known_behs.append({"id": "wbknown_%s_%s" % (cfg[len("MC_WalrusBlocks_"):-4], be),
+                               "cfg": {"backend": be, "mode": cex["mode"], "pe": cex["pe"], "proj": True, "topics": topics},
+                               "ops": ops + drain_ops(topics, False), "_cfg": cfg, "_model_clause": cex["v"]})
     # committed regression behaviours (counterexamples of earlier model/engine versions)
-    for path in sorted(glob.glob(os.path.join(C.VERIF, "corpus", "blocks_*.ndjson"))):
-        with open(path) as f:
-            for line in f:
-                line = line.strip()
-                if line and not line.startswith("#"):
-                    b = json.loads(line)
-                    reg_behs.append({"id": "corpus_" + b["id"], "cfg": b["cfg"], "ops": b["ops"]})
+    if not reclaim:
+        for path in sorted(glob.glob(os.path.join(C.VERIF, "corpus", "blocks_*.ndjson"))):
+            with open(path) as f:
+                for line in f:
+                    line = line.strip()
+                    if line and not line.startswith("#"):
+                        b = json.loads(line)
+                        reg_behs.append({"id": "corpus_" + b["id"], "cfg": b["cfg"], "ops": b["ops"]})
     # 3. the real engine
+    all_behs = behs + reg_behs + known_behs
+    run_behs = [{k: v for k, v in b.items() if not k.startswith("_")} for b in all_behs]
     if engine_bin_env:
-        traces = run_with_binary(behs + reg_behs, engine_bin_env, tag)
+        traces = run_with_binary(run_behs, engine_bin_env, tag)
     else:
-        traces = E.run_behaviours(behs + reg_behs, "tiny", tag=tag)
-    missing = [b["id"] for b in behs + reg_behs if b["id"] not in traces]
+        traces = E.run_behaviours(run_behs, "tiny", tag=tag)
+    missing = [b["id"] for b in all_behs if b["id"] not in traces]
     if missing:
         raise C.ToolError("%d behaviours produced no trace (driver failure), e.g. %s" % (len(missing), missing[:3]))
     # 4. the contract decides
-    verd, vstats = E.validate(traces, tag=tag + "v", drop=("reclaim",))
-    ftraces = {g: [e for e in evs if e.get("ev") != "reclaim"] for g, evs in traces.items()}
-    byid = {b["id"]: b for b in behs + reg_behs}
-    failed = sorted(g for g in verd if not verd[g]["ok"])
+    verd, vstats = E.validate(traces, tag=tag + "v", drop=drop)
+    ftraces = {g: [e for e in evs if e.get("ev") not in drop] for g, evs in traces.items()}
+    byid = {b["id"]: b for b in run_behs}
+    # diagnosis order: StrictlyAtOnce first (no recorded finding can explain a rejection there), then the
+    # counterexamples of the `known` configurations, then the rest
+    failed = sorted((g for g in verd if not verd[g]["ok"]),
+                    key=lambda g: (byid[g]["cfg"]["mode"] != "strict", not g.startswith("wbknown_"), g))
     findings = C.load_findings()
     fails = []
     twins_needed = []
@@ -471,10 +628,11 @@ def blocks_pipeline(tier, use_cache=True, engine_bin_env=None, max_behaviours=No
         d = E.classify(ftraces[g], v["index"], states)
         d["mode"] = byid[g]["cfg"]["mode"]
         d["backend"] = byid[g]["cfg"]["backend"]
+        d["after_reclaim"] = any(x.get("ev") == "reclaim" for x in ftraces[g][:v["index"]])
         fails.append({"beh": g, "div": d, "matched": v["matched"], "index": v["index"],
                       "first_unmatched": {k: x for k, x in v["first_unmatched"].items() if k != "proj"},
                       "proj_before": v["first_unmatched"].get("proj"), "states": states[:2]})
-        if d.get("after_reopen"):
+        if d.get("after_reopen") and not reclaim:
             twins_needed.append(g)
     twin_ok = {}
     if twins_needed:
@@ -483,21 +641,25 @@ def blocks_pipeline(tier, use_cache=True, engine_bin_env=None, max_behaviours=No
             ttr = run_with_binary(twins, engine_bin_env, tag + "tw")
         else:
             ttr = E.run_behaviours(twins, "tiny", tag=tag + "tw")
-        tverd, _ = E.validate(ttr, tag=tag + "twv", drop=("reclaim",))
+        tverd, _ = E.validate(ttr, tag=tag + "twv", drop=drop)
         for g in twins_needed:
             twin_ok[g] = bool(tverd.get(g + "~tw", {}).get("ok"))
     for f in fails:
         g = f["beh"]
         d = f["div"]
         owners = []
-        if g in twin_ok and twin_ok[g]:
-            owners.append("C06")
-        if own_c01(d):
-            owners.append("C01")
-        if own_c03(d):
-            owners.append("C03")
-        if own_c15(d):
-            owners.append("C15")
+        if reclaim:
+            if own_c12(d):
+                owners.append("C12")
+        else:
+            if g in twin_ok and twin_ok[g]:
+                owners.append("C06")
+            if own_c01(d):
+                owners.append("C01")
+            if own_c03(d):
+                owners.append("C03")
+            if own_c15(d):
+                owners.append("C15")
         f["owners"] = owners
         f["known"] = {}
         for pid in owners:
@@ -505,6 +667,18 @@ def blocks_pipeline(tier, use_cache=True, engine_bin_env=None, max_behaviours=No
             if kf is not None:
                 f["known"][pid] = {"id": kf["id"], "what_fails": kf["what_fails"]}
         f["behaviour"] = byid[g]
+    # 4b. the counterexamples of the `known` configurations: the engine is expected to show the recorded finding
+    known_replay = []
+    for b in known_behs:
+        g = b["id"]
+        rec = {"beh": g, "cfg": b["_cfg"], "model_clause": b["_model_clause"], "engine_rejected": not verd[g]["ok"]}
+        fl = next((f for f in fails if f["beh"] == g), None)
+        if fl is None and not verd[g]["ok"]:
+            rec["note"] = "rejected, but beyond the diagnosis limit"
+        if fl is not None:
+            rec["divergence"] = fl["div"]
+            rec["finding"] = (fl["known"].get("C12") or {}).get("id")
+        known_replay.append(rec)
     # 5. drift
     compared, drift_items, drift_traces = 0, [], 0
     for b in behs:
@@ -523,19 +697,26 @@ def blocks_pipeline(tier, use_cache=True, engine_bin_env=None, max_behaviours=No
         for lab in hist.label_path(s):
             paths_replayed[lab] = paths_replayed.get(lab, 0) + 1
     main_mc = mcs[td["mc"][0]]
+    body = set(b["id"] for b in behs)
     res = {
         "tier": tier,
         "mc": {c: {k: v for k, v in r.items() if k not in ("hist_file", "cex_all")} for c, r in mcs.items()},
         "states": main_mc["states"], "transitions": main_mc["transitions"],
         "defect_configs": defect_info, "simulation": sim_info,
         "histories_printed": len(hist.by_key), "maximal_histories": n_max, "behaviours_selected": len(selected),
-        "behaviours_replayed": len(behs), "regression_behaviours": len(reg_behs), "traces": len(traces),
+        "behaviours_replayed": len(behs), "regression_behaviours": len(reg_behs), "known_behaviours": len(known_behs),
+        "traces": len(traces),
         "trace_events": sum(len(t) for t in traces.values()),
         "trace_tlc_states": vstats["states_distinct"],
-        "rejected_traces": len(failed), "failures": fails,
+        "rejected_traces": len(failed), "failures": fails, "known_replay": known_replay,
         "projection_comparisons": compared, "drift_traces": drift_traces,
         "drift_classes": {k: v for k, v in sorted(drift_classes.items())},
         "paths_model": gen_res["paths"], "paths_replayed": paths_replayed,
+        "request_paths_model": gen_res.get("request_paths", {}),
+        "request_histories_model": sum(1 for s in hist.by_key.values() if s.get("rq")),
+        "request_histories_replayed": sum(1 for s in selected if s.get("rq")),
+        "reclaim_events": sum(1 for t in traces.values() for e in t if e.get("ev") == "reclaim"),
+        "traces_with_reclaim": sum(1 for g, t in traces.items() if g in body and any(e.get("ev") == "reclaim" for e in t)),
         "samples": [summarize(s) for s in selected[:3]],
         "wall_s": round(time.time() - t0, 1),
     }
@@ -558,6 +739,8 @@ def summarize(s):
             ops.append("read(%s,%s)" % (o["t"], "ck" if o["ckpt"] else "peek"))
         elif k == "bread":
             ops.append("bread(%s,b=%s,%s)" % (o["t"], o["budget"], "ck" if o["ckpt"] else "peek"))
+        elif k == "reopen":
+            ops.append("reopen(%s)" % o.get("proc", "same"))
         else:
             ops.append(k)
     return {"mode": s["mode"], "pe": s["pe"], "ops": ops, "last_path": s["last"]}
@@ -578,6 +761,7 @@ def run_with_binary(behs, binp, tag):
 
 def _property_view(pid, tier):
     res = blocks_pipeline(tier)
+    reclaim = tierdef(tier).get("flavour") == "reclaim"
     lines, violations, known = [], 0, {}
     for f in res["failures"]:
         if pid not in f["owners"]:
@@ -600,9 +784,26 @@ def _property_view(pid, tier):
         d = v["first"]
         lines.append("MODEL-DRIFT: %s in %d trace(s); first: behaviour %s op %d %s: %s"
                      % (k, v["count"], d["beh"], d["op_index"], json.dumps(d["op"], sort_keys=True), json.dumps(d["diff"], sort_keys=True)))
+    for r in res.get("known_replay", []):
+        # the model of the code as it is shows a recorded finding on this behaviour; so should the code
+        if not r["engine_rejected"]:
+            lines.append("MODEL-DRIFT: known-finding counterexample of %s (%s) is accepted by the contract on the real engine "
+                         "(behaviour %s): the design model predicts a violation the code does not show"
+                         % (r["cfg"], r["model_clause"], r["beh"]))
+        elif r.get("divergence") is not None and not r.get("finding"):
+            lines.append("NOTE: the real engine rejects the known-finding counterexample of %s at %s/%s, which no recorded finding matches"
+                         % (r["cfg"], r["divergence"].get("ev"), r["divergence"].get("kind")))
     unattributed = sum(1 for f in res["failures"] if not f["owners"])
+    undiagnosed = res["rejected_traces"] - len(res["failures"])
     if unattributed:
-        lines.append("NOTE: %d rejected WalrusBlocks trace(s) are not attributed to C01/C03/C06/C15 (see blocks pipeline summary)" % unattributed)
+        lines.append("NOTE: %d rejected WalrusBlocks trace(s) are not attributed to %s (see blocks pipeline summary)"
+                     % (unattributed, "C12" if reclaim else "C01/C03/C06/C15"))
+    if undiagnosed > 0:
+        lines.append("NOTE: %d rejected WalrusBlocks trace(s) beyond the diagnosis limit (all AtLeastOnce or known-finding "
+                     "counterexamples unless listed above)" % undiagnosed)
+    if reclaim and (res["reclaim_events"] == 0 or res["traces_with_reclaim"] == 0 or res["request_histories_replayed"] == 0):
+        raise C.ToolError("C12 design-spec view: no reclamation request was replayed/observed (model request histories replayed=%d, "
+                          "engine reclaim events=%d): vacuous" % (res["request_histories_replayed"], res["reclaim_events"]))
     cov = {
         "design_model": "WalrusBlocks",
         "states": res["states"], "transitions": res["transitions"],
@@ -612,10 +813,20 @@ def _property_view(pid, tier):
         "design_rejected_traces": res["rejected_traces"], "design_unattributed": unattributed,
         "design_projection_comparisons": res["projection_comparisons"], "drift": res["drift_traces"],
         "design_drift_classes": {k: v["count"] for k, v in res["drift_classes"].items()},
-        "design_action_coverage": res["mc"][TIERS["thorough" if tier == "thorough" else "quick"]["mc"][0]].get("coverage"),
+        "design_action_coverage": res["mc"][tierdef(tier)["mc"][0]].get("coverage"),
         "design_path_coverage": res["paths_model"], "design_paths_replayed": res["paths_replayed"],
         "design_samples": res["samples"],
     }
+    if reclaim:
+        cov.update({
+            "design_request_paths": res["request_paths_model"],
+            "design_request_histories": res["request_histories_model"],
+            "design_request_histories_replayed": res["request_histories_replayed"],
+            "design_reclaim_events_on_engine": res["reclaim_events"],
+            "design_traces_with_reclaim": res["traces_with_reclaim"],
+            "design_known_finding_replay": [{k: v for k, v in r.items() if k != "divergence"} for r in res["known_replay"]],
+            "design_undiagnosed": max(0, undiagnosed),
+        })
     return (C.EXIT_VIOLATION if violations else C.EXIT_OK), cov, lines
 
 
@@ -633,6 +844,13 @@ def c06_blocks(tier):
 
 def c15_blocks(tier):
     return _property_view("C15", tier)
+
+
+def c12_blocks(tier):
+    """C12 through the design model: the reclamation configurations (a file becomes fully allocated, its blocks
+    are consumed, requests are raised), reclaim events decided by the contract, per-file counters and requests
+    compared with the model's op by op."""
+    return _property_view("C12", "reclaim_thorough" if tier == "thorough" else "reclaim_quick")
 
 
 # ------------------------------------------------------------------------------------------------
@@ -690,6 +908,72 @@ def selftest(tier="quick"):
         raise C.ToolError("blocks self-test: the unmodified trace is rejected: %s" % json.dumps(out))
     if out["corrupted_result_accepted"]:
         raise C.ToolError("blocks self-test: a corrupted result was accepted by the contract: %s" % json.dumps(out))
+    out["reclaim"] = selftest_reclaim()
+    return out
+
+
+def selftest_reclaim():
+    """Binding of the reclamation part: on a StrictlyAtOnce history whose last operation raises a request,
+    (a) the unmodified trace shows no drift and is accepted with its reclaim events, (b) a corrupted expected
+    per-file counter shows as drift, (c) a request the model does not predict (expected request removed) shows
+    as drift, (d) a request missing on the engine side shows as drift, (e) a reclaim event naming an
+    unconsumed entry is rejected by the contract."""
+    td = TIERS["reclaim_quick"]
+    gen_res = run_mc(td["gen"], timeout=td["timeout"], optional=tuple(td["optional"][td["gen"]]))
+    hist = Histories()
+    hist.add(load_histories(gen_res))
+    cands = [s for key, s in sorted(hist.by_key.items()) if s.get("rq") and s["mode"] == "strict"]
+    if not cands:
+        raise C.ToolError("blocks self-test (reclaim): no history with a reclamation request")
+    s = random.Random(C.seed()).choice(cands)
+    behs, meta = to_behaviours([s], marking=True)
+    behs = [b for b in behs if b["id"].endswith("_fd_d")]
+    traces = E.run_behaviours(behs, "tiny", tag="wbselfr")
+    b = behs[0]
+    evs = traces[b["id"]]
+    nm = len(s["h"])
+    c0, d0 = compare_trace(hist, b, meta[b["id"]], evs)
+    v0, _ = E.validate({b["id"]: evs}, tag="wbselfrv0", drop=())
+    out = {"behaviour": summarize(s), "requests": [r["f"] for r in s["rq"]], "comparisons": c0, "baseline_drift": len(d0),
+           "baseline_accepted": v0[b["id"]]["ok"],
+           "engine_reclaim_events": sum(1 for e in evs if e.get("ev") == "reclaim")}
+
+    def with_summary(s2):
+        h2 = Histories()
+        h2.by_key = dict(hist.by_key)
+        h2.by_key[(s2["mode"], s2["pe"], hkey(s2["h"]))] = s2
+        m2 = dict(meta[b["id"]])
+        m2["summary"] = s2
+        return compare_trace(h2, b, m2, evs)[1]
+    s2 = json.loads(json.dumps(s))
+    s2["fs"][0][1] += 1                      # checkpointed counter of the first file
+    out["corrupted_counter_drift"] = [d["kind"] for d in with_summary(s2)]
+    s3 = json.loads(json.dumps(s))
+    s3["rq"] = []                            # the model "forgets" the request
+    out["unexpected_request_drift"] = [d["kind"] for d in with_summary(s3)]
+    # the engine "forgets" the request: drop the reclaim events of the body
+    seen_ops, evs4 = 0, []
+    for e in evs:
+        if e.get("ev") in ("append", "batch", "read", "bread", "reopen"):
+            seen_ops += 1
+        if e.get("ev") == "reclaim" and seen_ops <= nm:
+            continue
+        evs4.append(e)
+    out["missing_request_drift"] = [d["kind"] for d in compare_trace(hist, b, meta[b["id"]], evs4)[1]]
+    evs5 = json.loads(json.dumps(evs))
+    for e in evs5:
+        if e.get("ev") == "reclaim":
+            e["stored"].append([sorted(s["fin"].keys())[0], 999])
+            break
+    v5, _ = E.validate({b["id"]: evs5}, tag="wbselfrv5", drop=())
+    out["premature_reclaim_accepted"] = v5[b["id"]]["ok"]
+    if d0 or not out["baseline_accepted"] or not out["engine_reclaim_events"]:
+        raise C.ToolError("blocks self-test (reclaim): baseline not clean: %s %s" % (json.dumps(out), json.dumps(d0)[:1500]))
+    if out["corrupted_counter_drift"] != ["projection"] or out["unexpected_request_drift"] != ["reclaim_requests"] \
+            or out["missing_request_drift"] != ["reclaim_requests"]:
+        raise C.ToolError("blocks self-test (reclaim): a corrupted expectation produced no drift: %s" % json.dumps(out))
+    if out["premature_reclaim_accepted"]:
+        raise C.ToolError("blocks self-test (reclaim): a reclaim event naming an unconsumed entry was accepted: %s" % json.dumps(out))
     return out
 
 
@@ -700,13 +984,18 @@ def main(argv):
     do_self = False
     use_cache = True
     for a in argv:
-        if a in ("quick", "thorough"):
+        if a in TIERS:
             tier = a
+        elif a == "selftest":
+            do_self = True
         elif a == "--selftest":
             do_self = True
         elif a == "--no-cache":
             use_cache = False
     try:
+        if do_self and "selftest" in argv:
+            print("self-test: %s" % json.dumps(selftest(tier)))
+            return C.EXIT_OK
         res = blocks_pipeline(tier, use_cache=use_cache)
         print("WalrusBlocks pipeline (%s): %.0f s" % (tier, res["wall_s"]))
         for cfg, r in res["mc"].items():
@@ -722,11 +1011,20 @@ def main(argv):
         print("  contract: rejected traces=%d; projection comparisons=%d, traces with drift=%d"
               % (res["rejected_traces"], res["projection_comparisons"], res["drift_traces"]))
         print("  code paths in the model: %d distinct; replayed: %d distinct" % (len(res["paths_model"]), len(res["paths_replayed"])))
+        reclaim = tierdef(tier).get("flavour") == "reclaim"
+        if reclaim:
+            print("  reclamation: model histories with a request=%d (replayed %d), paths %s; engine reclaim events=%d in %d traces"
+                  % (res["request_histories_model"], res["request_histories_replayed"], json.dumps(res["request_paths_model"], sort_keys=True),
+                     res["reclaim_events"], res["traces_with_reclaim"]))
+            for r in res["known_replay"]:
+                print("  known-finding counterexample %s: engine rejected=%s finding=%s" % (r["beh"], r["engine_rejected"], r.get("finding")))
         rc = C.EXIT_OK
-        for pid, fn in (("C01", c01_blocks), ("C03", c03_blocks), ("C06", c06_blocks), ("C15", c15_blocks)):
+        views = ((("C12", lambda t: _property_view("C12", t)),) if reclaim else
+                 (("C01", c01_blocks), ("C03", c03_blocks), ("C06", c06_blocks), ("C15", c15_blocks)))
+        for pid, fn in views:
             code, cov, lines = fn(tier)
             print("  %s: exit %d" % (pid, code))
-            for l in (lines if pid == "C01" else [x for x in lines if not x.startswith("MODEL-DRIFT") and not x.startswith("NOTE")]):
+            for l in (lines if pid in ("C01", "C12") else [x for x in lines if not x.startswith("MODEL-DRIFT") and not x.startswith("NOTE")]):
                 print("    " + l)
             rc = max(rc, code)
         for f in res["failures"]:
